@@ -10,6 +10,18 @@ def T(quick, thorough):
     return {"quick": quick, "thorough": thorough}
 
 
+def bundled(rnd, qn=5, tn=30, pct=40):
+    """Adds to a random-driver table one entry per tier that runs the tier's first configuration with
+    multi-message transactions: runs of consecutive messages of one signer are delivered as ONE real
+    transaction (chain.BundlePct, DESIGN 13.11); a failed bundle is logged as TxFailed events."""
+    for tier, n in (("quick", qn), ("thorough", tn)):
+        e = dict(rnd[tier][0])
+        e["n"], e["procs"] = n, min(e.get("procs", 2), 3)
+        e["cfg"] = (e.get("cfg", "") + "," if e.get("cfg") else "") + "bundle=%d" % pct
+        rnd[tier].append(e)
+    return rnd
+
+
 class ModuleCheck:
     """A property decided by a module specification + its trace specification."""
 
@@ -90,7 +102,7 @@ class ModuleCheck:
                                          num=g.get("num", 50), depth=g.get("depth", 12), seed=sd,
                                          timeout=g.get("timeout", 1500))
             tr = os.path.join(work, f"trace-gen{gi}-{sd}.ndjson")
-            vlib.run_harness(self.module, "replay", tr, inp=beh, cfg=g.get("driver_cfg", self.gen_cfg))
+            vlib.run_harness(self.module, "replay", tr, inp=beh, cfg=g.get("driver_cfg", self.gen_cfg), tolerate=True)
             return n, tr
 
         total = 0
@@ -111,7 +123,7 @@ class ModuleCheck:
         def one(job):
             ri, r, sd = job
             tr = os.path.join(work, f"trace-rnd{ri}-{sd}.ndjson")
-            vlib.run_harness(self.module, "random", tr, seed=sd, n=r["n"], len=r["len"], cfg=r.get("cfg", ""))
+            vlib.run_harness(self.module, "random", tr, seed=sd, n=r["n"], len=r["len"], cfg=r.get("cfg", ""), tolerate=True)
             return tr
 
         with ThreadPoolExecutor(max_workers=max(1, vlib.NCPU - 2)) as ex:
@@ -123,7 +135,7 @@ class ModuleCheck:
         for i, sc in enumerate(self.scenarios):
             path = os.path.join(ROOT, sc["file"])
             tr = os.path.join(work, f"trace-scn{i}.ndjson")
-            vlib.run_harness(self.module, "replay", tr, inp=path, cfg=sc.get("cfg", ""))
+            vlib.run_harness(self.module, "replay", tr, inp=path, cfg=sc.get("cfg", ""), tolerate=True)
             outs.append(tr)
         return outs
 
@@ -258,6 +270,10 @@ class ModuleCheck:
             log(f"clause {clause} failed on a real-code trace (and {len(viol)-1} more clause instances)")
             print(f"VIOLATION property={pid} replay={path}", flush=True)
             return 1, cov, len(viol)
+        if vlib.CRASHES:
+            log(f"INCONCLUSIVE property={pid}: {len(vlib.CRASHES)} driver run(s) died and no clause failed on what they "
+                f"had recorded (first: {vlib.CRASHES[0]})")
+            return 2, cov, 0
         if unrep:
             log(f"INCONCLUSIVE property={pid}: {len(unrep)} step(s) carried a value the harness could not express exactly "
                 f"in model units (first: {unrep[0][1]} at trace line {unrep[0][0]}); those steps were not judged")
@@ -279,7 +295,8 @@ class ModuleCheck:
         if os.path.exists(path + ".meta"):
             meta = json.load(open(path + ".meta"))
         tr = os.path.join(work, "trace-replay.ndjson")
-        vlib.run_harness(self.module, "replay", tr, inp=path, cfg=meta.get("driver_cfg", self.gen_cfg) + ",epilogue=0")
+        vlib.run_harness(self.module, "replay", tr, inp=path, cfg=meta.get("driver_cfg", self.gen_cfg) + ",epilogue=0",
+                         tolerate=True)
         sub = os.path.join(work, "replay-val")
         os.makedirs(sub, exist_ok=True)
         vlib.copy_specs(sub)
